@@ -1,16 +1,38 @@
 CFG = {'assumptions': ["64*len(words) < 2^31 and len(values)*w < 2^31 (Go's int32/int positions cannot overflow; larger inputs are outside every statement)",
                  'every word / value is in [0,2^64) (words_ok)',
-                 'Join/Getw: w in {1,2,4,8,16,32,64}; Slice: 0 <= from <= to <= 64*len(words)'],
- 'files': ['bitmap/join.go', 'bitmap/get.go', 'bitmap/slice.go', 'bitmap/mask.go'],
- 'go': {'bitmap.Join': 'bitmap.Join (+ input compared before/after)',
+                 'Join/Getw: w in {1,2,4,8,16,32,64}; Slice: 0 <= from <= to <= 64*len(words)',
+                 'Getw/any: the specification speaks only while i*w fits int32 (beyond, Go wraps the product; there the '
+                 'run compares implementation and model only); Slice/Rank64|NextOne|PrevOne: 0 <= j < b-a; '
+                 'Join/Slice: 0 <= k <= m <= len(values); Fmt: values inside the range of their integer type'],
+ 'files': ['bitmap/join.go', 'bitmap/get.go', 'bitmap/slice.go', 'bitmap/mask.go', 'bitmap/fmt.go', 'bitmap/toarray.go'],
+ 'go': {'bitmap.Masks': 'bitmap.Mask[j], RMask[j], MaskUpto[j], RMaskUpto[j], Bit[j], RBit[j] (each read on its own; P = index out of range)',
+        'bitmap.Getw/any': 'bitmap.Getw on an arbitrary bitmap and int32 index (P = panic)',
+        'bitmap.Slice/ToArray': 'bitmap.ToArray(bitmap.Slice(words, from, to))',
+        'bitmap.Fmt': 'bitmap.Fmt on a scalar or slice of int8..uint64 (or of string: panics)',
+        'bitmap.Slice/Slice': 'bitmap.Slice(bitmap.Slice(words, a, b), c, d)',
+        'bitmap.Slice/Rank64': 'bitmap.Rank64(r, bitmap.IndexRank64(r, trailing), j) with r = bitmap.Slice(words, a, b)',
+        'bitmap.Slice/NextOne': 'bitmap.NextOne(bitmap.Slice(words, a, b), j, b-a)',
+        'bitmap.Slice/PrevOne': 'bitmap.PrevOne(bitmap.Slice(words, a, b), j, b-a)',
+        'bitmap.Join/Slice': 'bitmap.Slice(bitmap.Join(values, w), k*w, m*w)',
+        'bitmap.Join/split': 'bitmap.Join([Getw(bm,i,w) for i < 64*len(bm)/w], w)',
+'bitmap.Join': 'bitmap.Join (+ input compared before/after)',
         'bitmap.Getw': 'bitmap.Getw(bitmap.Join(values, w), i, w) for every i',
         'bitmap.Slice': 'bitmap.Slice (+ input compared before/after)'},
  'rule': 'cases = Join/Getw: all 7 widths x (every list of 0..3 values over {0,1,2^w-1,2^w,2^64-1}; list lengths '
-         'around 1, 2, 3.5 and 5 words of packed bits with 6 value patterns incl. bits above w; random) - the '
+         'around 1, 2, 3.5 and 5 words of packed bits with 6 value patterns incl. bits above w; random; long lists of '
+         '31..33, 64, 100 packed words; huge lists just beyond 2^15 and 2^16 packed bits) - the '
          'observation is the returned words, their len, every Getw result and an input-unchanged flag; Slice: all '
          '(from,to) over bitmaps of 0..3 words + random bitmaps of 1..20 words with ends on/next to word boundaries '
-         'and lengths 64k-1/64k/64k+1 - the observation is the returned words (len included) and the '
-         'input-unchanged flag. Non-trivial: Join with >= 2 values, a stored 1-bit and (w<64) a bit above w that '
+         'and lengths 64k-1/64k/64k+1 + sparse bitmaps of 30..100 words + bitmaps of 513/1025/2049 words with ranges '
+         'around bit 2^14..2^17 - the observation is the returned words (len included) and the '
+         'input-unchanged flag. Widening: mask tables at every index -3..67; Getw on arbitrary bitmaps of 0..40 words at every '
+         'element of small bitmaps, just outside, negative, and with i*w wrapping int32 (there only model = '
+         'implementation is compared, the specification is silent); split+Join over bitmaps of 0..12 words x all 7 '
+         'widths; ToArray(Slice) over all (from,to) of a 2-word bitmap + random ranges over 1..20 words; Slice(Slice) over a grid of (a,b,c,d) on a 2-word bitmap + '
+         'random over 1..12 words; Rank64/NextOne/PrevOne of a slice over sparse and dense bitmaps of 1..8 '
+         'words; Slice(Join) at element boundaries: all (k,m) of short lists x 7 widths + random; Fmt: 8 integer types x scalar/slice x boundary values, all '
+         '256 int8/uint8 values, every single bit and complement of the wider types, random values and slices of '
+         '0..5, the non-integer panic. Non-trivial: Join with >= 2 values, a stored 1-bit and (w<64) a bit above w that '
          'must be cut off; Slice with a non-empty range containing a 1-bit. shape key = (w, packed length class) / '
          '(offset classes of from and to, span, length class, 1-bit just before / just after the range, result '
          'words); distinct = distinct (op,args)'}
